@@ -230,6 +230,10 @@ def valid(case):
         game = src_game(case["conv"])
         if not case["maps"]:
             return False
+        if case["base"] != "objects" and (game != "o2j" or case["base"] not in ("o2ma120.ojn", "o2ma178.ojn")):
+            return False
+        if case["keys"] not in (4, 7):
+            return False
         if game not in ("sm", "o2j") and len(case["maps"]) != 1:
             return False
         if game == "o2j" and (len(case["maps"]) > 3 or case["base"] != "objects" and len(case["maps"]) != 3):
